@@ -19,6 +19,7 @@ class P(vlib.Prop):
         dict(name="resolve", cmd="c03", args=lambda t, s: ["-stage", "resolve"]),
         dict(name="filter", cmd="c03", args=lambda t, s: ["-stage", "filter"]),
         dict(name="soname", cmd="c03", args=lambda t, s: ["-stage", "soname"]),
+        dict(name="pins", cmd="c03", args=lambda t, s: ["-stage", "pins"]),
     )
     assumptions = (
         "Go's regexp engine implements the language of the AST that regexp/syntax parses (the matcher in Base/Regex.v is verified against that AST's semantics, bytes instead of runes; goextract refuses classes where the two differ)",
